@@ -25,7 +25,8 @@ REQUIRED = ["no-force attempts refused", "force imports compared with solitary i
             "statements traced on gffutils' connection", "authorizer events seen", "files re-dumped after read sequences",
             "old databases with un-checkpointed WAL frames", "attempts on a database locked by another connection",
             "GTF databases built without inference", "look-ups of ids known only as relation parents",
-            "attempts through an open connection to the existing database", "databases that already hold derived introns"]
+            "attempts through an open connection to the existing database", "databases that already hold derived introns",
+            "read sequences on a handle holding an uncommitted failed write", "databases whose stored dialect is null"]
 ASSUMPTIONS = [
     "'content untouched' is judged on the independent content dump (byte identity of the file is recorded as a monitor, not demanded)",
     "exceptions raised by a read-style call (e.g. bed12 on non-spanning blocks) are not this property's concern; the call still must not write",
@@ -269,7 +270,14 @@ def reads(ctx, case):
         if case["fmt"] == "gtf" and case.get("no_infer"):
             kw = {"disable_infer_genes": True, "disable_infer_transcripts": True}
             ctx.mon("GTF databases built without inference")
+        if case.get("null_dialect") and case["fmt"] == "gff3":
+            # the one documented route to a database whose stored dialect is null
+            kw = {"force_dialect_check": True, "force_gff": True}
         gffutils.create_db(text, dbfn, from_string=True, **kw).conn.close()
+        if case.get("null_dialect") and case["fmt"] == "gff3":
+            meta = dbdump.dump(dbfn)["meta"]
+            if meta and meta[0][0] in (None, "null", []):
+                ctx.mon("databases whose stored dialect is null")
         if case.get("stored_derived") and case["fmt"] == "gff3":
             # a database that already holds features derived earlier (the documented db.update(db.create_introns()))
             w = gffutils.FeatureDB(dbfn)
@@ -286,8 +294,19 @@ def reads(ctx, case):
         if serial is None:
             from gvmon.run import Inconclusive
             raise Inconclusive("gffutils' connection is not a traced connection")
-        log0, auth0, tc0 = len(sqltrace.LOG), len(sqltrace.AUTH), db.conn.total_changes
         ids = [f["id"] for f in before["features"]]
+        pending = False
+        if case.get("pending") and len(ids) >= 2:
+            # an earlier write on this handle failed half-way (a hook function that forgets to return the feature): its
+            # INSERT is still uncommitted when the reads begin.  Reads neither commit nor roll back what they did not start.
+            try:
+                db.add_relation(ids[0], ids[-1], 1, parent_func=lambda parent, child: None)
+            except Exception:
+                pass
+            pending = db.conn.in_transaction
+            if pending:
+                ctx.mon("read sequences on a handle holding an uncommitted failed write")
+        log0, auth0, tc0 = len(sqltrace.LOG), len(sqltrace.AUTH), db.conn.total_changes
         # ids that occur in the relations table but are not features (dangling parents; GTF transcripts/genes when
         # inference is off): look-ups of those are misses and must stay reads
         only_related = sorted(set(r[0] for r in before["relations"]) - set(ids))
@@ -313,10 +332,12 @@ def reads(ctx, case):
             ctx.mon("call:" + name)
             used.add(name)
             stmts, auth = sqltrace.writes(serial=serial, since_log=l0, since_auth=a0)
-            if stmts or auth or db.conn.total_changes != t0 or db.conn.in_transaction:
+            ended = [st for n, st in sqltrace.LOG[l0:] if n == serial and sqltrace.first_word(st) in ("COMMIT", "ROLLBACK")] if pending else []
+            if stmts or auth or db.conn.total_changes != t0 or db.conn.in_transaction != pending or ended:
                 ctx.violation(case, {"why": "read-style method %s wrote to the database" % name, "statements": stmts[:5],
                                      "authorizer": [list(map(str, a)) for a in auth[:5]],
-                                     "total_changes_delta": db.conn.total_changes - t0, "in_transaction": db.conn.in_transaction})
+                                     "total_changes_delta": db.conn.total_changes - t0, "in_transaction": db.conn.in_transaction,
+                                     "uncommitted_failed_write_before": pending, "transaction_ended_by": ended[:3]})
                 return
         ctx.mon("statements traced on gffutils' connection", len([1 for n, _ in sqltrace.LOG[log0:] if n == serial]))
         ctx.mon("authorizer events seen", len([1 for a in sqltrace.AUTH[auth0:] if a[0] == serial]))
@@ -357,7 +378,8 @@ def run(ctx):
     for _ in range(ctx.budget(480, 16000)):
         calls = [rng.choice(METHODS) for _ in range(40)]
         case = {"kind": "reads", "seed": rng.randrange(10 ** 6), "fmt": rng.choice(["gff3", "gff3", "gtf"]), "calls": calls,
-                "no_infer": rng.random() < 0.4, "stored_derived": rng.random() < 0.3}
+                "no_infer": rng.random() < 0.4, "stored_derived": rng.random() < 0.3, "pending": rng.random() < 0.2,
+                "null_dialect": rng.random() < 0.12}
         execute(ctx, case)
         ctx.case(("reads", case["seed"], case["fmt"], calls), len(set(calls)) >= 6, sample=case if rng.random() < 0.05 else None,
                  cls="read sequence on %s db" % case["fmt"])
@@ -369,7 +391,7 @@ MANIFEST = {
             "detectors watch the connection gffutils itself opened (authorizer action codes, first keyword of every traced "
             "statement, total_changes / open transaction); afterwards the file is re-dumped with plain sqlite3 and compared. "
             "For clobbering, create_db is pointed at an existing database with and without force and the outcome compared "
-            "with the old content / with a solitary import of the new input. Old databases also come without ANALYZE statistics, as crashed-writer leftovers in WAL mode (frames only in the -wal file) and locked by another connection; read sequences include GTF databases built without inference and look-ups of ids known only as relation parents, levels 3/4 and four-tier hierarchies.",
+            "with the old content / with a solitary import of the new input. Old databases also come without ANALYZE statistics, as crashed-writer leftovers in WAL mode (frames only in the -wal file) and locked by another connection; read sequences include GTF databases built without inference and look-ups of ids known only as relation parents, levels 3/4 and four-tier hierarchies; a fifth of the read sequences run on a handle that holds the uncommitted INSERT of a failed add_relation (reads must neither commit nor roll it back), some on a database whose stored dialect is null.",
     "note": "Trusted: sqlite3's authorizer and trace callbacks. Methods not listed in the statement are still exercised when "
             "they are read-style (create_splice_sites, iter_by_parent_childs, schema).",
 }
